@@ -147,6 +147,9 @@ func (a *fakeAdapter) Add(ts ...*tq.Transfer) <-chan tq.TransferResult {
 				err = errors.NewRetriableError(fmt.Errorf("scripted retriable failure [%s]", t.Oid))
 			case "later":
 				err = errors.NewRetriableLaterError(fmt.Errorf("scripted retry-later [%s]", t.Oid), "0")
+			case "later1", "later2", "later3":
+				// the storage server defers THIS object by 1..3 seconds (HTTP 429 + Retry-After on the transfer)
+				err = errors.NewRetriableLaterError(fmt.Errorf("scripted retry-later [%s]", t.Oid), out[5:])
 			case "422":
 				err = errors.NewUnprocessableEntityError(fmt.Errorf("scripted 422 [%s]", t.Oid))
 			default:
@@ -157,6 +160,11 @@ func (a *fakeAdapter) Add(ts ...*tq.Transfer) <-chan tq.TransferResult {
 			o := out
 			if overlap {
 				o += "+overlap"
+			}
+			if strings.HasPrefix(out, "later") && len(out) == 6 {
+				secs, _ := strconv.Atoi(out[5:])
+				w.obs.NotBefore[t.Oid] = w.ms() + int64(secs)*1000 - 60
+				o = "later" // same outcome class as an undelayed deferral
 			}
 			w.obs.Calls = append(w.obs.Calls, tqAdapterCall{Oid: t.Oid, Start: st, End: w.ms(), Outcome: o})
 			w.mu.Unlock()
